@@ -30,7 +30,7 @@ ASSUMPTIONS = [
     "JSON cannot express Some(None): Optional[Optional[T]] is flattened in generated schemas",
     "compile warnings are not failures; only ASan-free -O0 builds are used",
 ]
-FLOORS = {"nested_struct": 0.05, "nested_container": 0.05, "enum": 0.05, "sub_byte": 0.3, "ids_out_of_order": 0.2,
+FLOORS = {"nested_struct": 0.03, "nested_container": 0.05, "enum": 0.05, "sub_byte": 0.3, "ids_out_of_order": 0.2,
           "compiled": (0.9, "program")}
 
 
